@@ -2359,6 +2359,17 @@ pub fn c20(c: &Collector, g: &mut Guard) {
                 v.push(Op::Feed(vec![format!("q\x1b(U{}\u{e9}", "\x1b(U".repeat(n))], false));
                 v.push(Op::Feed(vec![format!("\x1b(0q{}q", "\x1b7\x1b8".repeat(n / 2))], false));
             }
+            // ESC % (select other coding system) is consumed without effect: the stream cannot leave
+            // or enter UTF-8 mode by itself, only the embedder can
+            for s in ["\x1b%@\x1b(0q\x0eq\x0fq", "\x1b%@\x0eq", "\x1b%@\x1b)U\x0e\u{e9}", "\x1b%8\x1b(0q", "\x1b%Gq\x0eq"] {
+                v.push(Op::Feed(vec![s.to_string()], true));
+                v.push(Op::FeedBytes(vec![s.as_bytes().to_vec()], true));
+                v.push(Op::FeedBytes(vec![s.as_bytes()[..3].to_vec(), s.as_bytes()[3..].to_vec()], true));
+            }
+            for s in ["\x1b%G\x1b(0q\x0eq\x0fq", "\x1b%8\x0eq", "\x1b%@\x1b(0q"] {
+                v.push(Op::Feed(vec![s.to_string()], false));
+                v.push(Op::FeedBytes(vec![s.as_bytes().to_vec()], false));
+            }
             // shifts / designators in odd places: inside a CSI, inside an OSC string, after ESC
             for s in ["\x1b[\x0eHq", "\x1b[5\x0fCq", "\x0e\x1b[\x0fHq", "\x1b]0;a\x0eb\x07q", "\x1b\x0eq", "\x1b[\x1b(0q", "\x1b(\x0eq", "\x1b)0\x1b[\x0e;Hq"] {
                 v.push(Op::Feed(vec![s.to_string()], true));
